@@ -67,6 +67,16 @@ def eq_ne_hash(x: int):
     assert p in [p] and q not in [p]
 
 
+@lemma
+def sets_of_objects_with_user_eq(x: int):
+    h1, h3 = EqHash(x), EqHash(x + 1)
+    s = {h1, h3}
+    s.add(h1)
+    assert len(s) == 2 and h1 in s and EqHash(x + 2) not in s, "unequal elements stay apart whatever their hashes are"
+    t = s | {h3}
+    assert len(t) == 2
+
+
 class NeOwn:
     def __eq__(self, o):
         return True
